@@ -645,52 +645,48 @@ func ruleScanDiscipline(c *Ctx, rule string) {
 	// resume leaves are guarded by success && non-empty; and the counter steps exactly there
 	ob := r.Ob(rule, "findMatches: position resumes and the match counter steps exactly on a successful non-empty attempt", c.pos(s.fn.Pos()))
 	guardOf := func(p *ssa.Phi, kind string) ([]string, bool) {
-		// find the join phi feeding the back edge and the predecessor through which `kind` leaves arrive
+		// every definition of `kind` that reaches the back edge, with the branch decisions of the iteration under which it does:
+		// walk from the header phi through the join phis, remembering the predecessor block through which each value arrives
 		var res []string
 		found := false
-		var visit func(v ssa.Value)
-		seen := map[ssa.Value]bool{}
-		visit = func(v ssa.Value) {
-			if seen[v] {
+		type arrival struct {
+			v    ssa.Value
+			pred *ssa.BasicBlock
+			to   *ssa.BasicBlock
+		}
+		seen := map[arrival]bool{}
+		var visit func(a arrival)
+		visit = func(a arrival) {
+			if seen[a] {
 				return
 			}
-			seen[v] = true
-			q, ok := v.(*ssa.Phi)
-			if !ok || q.Block() == s.header {
+			seen[a] = true
+			if q, ok := a.v.(*ssa.Phi); ok && q.Block() != s.header {
+				for i, e := range q.Edges {
+					visit(arrival{e, q.Block().Preds[i], q.Block()})
+				}
 				return
 			}
-			for i, e := range q.Edges {
-				direct := false
-				for _, lf := range s.leaves(e) {
-					if classify(p, lf) == kind {
-						direct = true
-					}
-				}
-				if direct {
-					if _, isPhi := e.(*ssa.Phi); !isPhi || e.(*ssa.Phi).Block() == s.header {
-						found = true
-						pred := q.Block().Preds[i]
-						var lits []string
-						for _, l := range s.iterConds(pred) {
-							if s.loop[l.If.Block()] && !s.exitBranch(l.If) {
-								lits = append(lits, s.norm(l.String()))
-							}
-						}
-						if iff, ok := pred.Instrs[len(pred.Instrs)-1].(*ssa.If); ok && !s.exitBranch(iff) {
-							l := CondLit{iff.Cond, pred.Succs[0] == q.Block(), iff}
-							lits = append(lits, s.norm(l.String()))
-						}
-						sort.Strings(lits)
-						res = append(res, strings.Join(uniq(lits), " && "))
-					} else {
-						visit(e)
-					}
+			if classify(p, a.v) != kind {
+				return
+			}
+			found = true
+			var lits []string
+			for _, l := range s.iterConds(a.pred) {
+				if s.loop[l.If.Block()] && !s.exitBranch(l.If) {
+					lits = append(lits, s.norm(l.String()))
 				}
 			}
+			if iff, ok := a.pred.Instrs[len(a.pred.Instrs)-1].(*ssa.If); ok && !s.exitBranch(iff) {
+				l := CondLit{iff.Cond, a.pred.Succs[0] == a.to, iff}
+				lits = append(lits, s.norm(l.String()))
+			}
+			sort.Strings(lits)
+			res = append(res, strings.Join(uniq(lits), " && "))
 		}
 		for i, e := range p.Edges {
 			if s.loop[p.Block().Preds[i]] {
-				visit(e)
+				visit(arrival{e, p.Block().Preds[i], p.Block()})
 			}
 		}
 		return res, found
@@ -724,7 +720,7 @@ func ruleScanDiscipline(c *Ctx, rule string) {
 	instrsOf(s.fn, func(in ssa.Instruction) {
 		if iff, ok := in.(*ssa.If); ok && s.loop[iff.Block()] {
 			str := s.norm(exprStr(iff.Cond))
-			if strings.Contains(str, "ReadAt(1, OFF)") && strings.Contains(str, "10") {
+			if strings.Contains(str, "ReadAt(1, OFF)") && (strings.Contains(str, "10") || strings.Contains(str, `"\n"`)) {
 				nl = true
 			}
 		}
@@ -735,8 +731,10 @@ func ruleScanDiscipline(c *Ctx, rule string) {
 	okExit := false
 	for b := range s.loop {
 		if iff, ok := b.Instrs[len(b.Instrs)-1].(*ssa.If); ok && s.exitBranch(iff) {
-			str := exprStr(iff.Cond)
-			if strings.Contains(str, ">= reader.Size()") && !s.loop[b.Succs[0]] {
+			// the literal that holds on the leaving edge, in canonical form
+			l := CondLit{iff.Cond, !s.loop[b.Succs[0]], iff}
+			str := l.String()
+			if strings.Contains(str, ">= reader.Size()") || strings.Contains(str, "== reader.Size()") {
 				okExit = true
 			}
 		}
@@ -807,7 +805,23 @@ func (c *Ctx) freshValue(v ssa.Value, depth int) (bool, string) {
 		if sc := x.Call.StaticCallee(); sc != nil && c.isRepoFn(sc) {
 			return c.returnsFresh(sc, depth)
 		}
+		if isFreshAppend(x, 0) {
+			return true, ""
+		}
 		return false, "result of " + callName(&x.Call)
+	case *ssa.Phi:
+		// a slice grown in a loop from nothing: every edge is fresh (or the phi itself)
+		if depth < 6 {
+			for _, e := range x.Edges {
+				if e == ssa.Value(x) {
+					continue
+				}
+				if f, w := c.freshValue(e, depth+1); !f {
+					return false, w
+				}
+			}
+			return true, ""
+		}
 	case *ssa.UnOp:
 		if x.Op == token.MUL {
 			if a, ok := x.X.(*ssa.Alloc); ok {
@@ -942,4 +956,65 @@ func hasRefField(t types.Type) bool {
 		}
 	}
 	return false
+}
+
+// isFreshAppend: append whose first argument is nil, a freshly made slice, or itself such an append (possibly through a loop phi
+// or a field of a local struct that starts out empty): the result has a backing array of its own.
+func isFreshAppend(call *ssa.Call, depth int) bool {
+	return isFreshAppendV(call, map[ssa.Value]bool{})
+}
+
+func isFreshAppendV(call *ssa.Call, seen map[ssa.Value]bool) bool {
+	b, ok := call.Call.Value.(*ssa.Builtin)
+	if !ok || b.Name() != "append" || len(call.Call.Args) == 0 {
+		return false
+	}
+	var freshBase func(v ssa.Value, d int) bool
+	freshBase = func(v ssa.Value, d int) bool {
+		if d > 12 {
+			return false
+		}
+		if seen[v] {
+			return true // coinductive: a cycle through loop phis or a local field adds nothing that is not fresh
+		}
+		seen[v] = true
+		switch x := v.(type) {
+		case *ssa.Const:
+			return x.Value == nil
+		case *ssa.MakeSlice:
+			return true
+		case *ssa.Call:
+			return isFreshAppendV(x, seen)
+		case *ssa.Phi:
+			for _, e := range x.Edges {
+				if !freshBase(e, d+1) {
+					return false
+				}
+			}
+			return true
+		case *ssa.UnOp:
+			// a field of a struct allocated in this function: all stores into it must be fresh bases themselves
+			if fa, ok := x.X.(*ssa.FieldAddr); ok && x.Op == token.MUL {
+				if a, ok := fa.X.(*ssa.Alloc); ok {
+					for _, ref := range *a.Referrers() {
+						fa2, ok := ref.(*ssa.FieldAddr)
+						if !ok || fa2.Field != fa.Field {
+							continue
+						}
+						for _, r2 := range *fa2.Referrers() {
+							if st, ok := r2.(*ssa.Store); ok && st.Addr == ssa.Value(fa2) {
+								if !freshBase(st.Val, d+1) {
+									return false
+								}
+							}
+						}
+					}
+					return true
+				}
+			}
+		}
+		return false
+	}
+	seen[call] = true
+	return freshBase(call.Call.Args[0], 0)
 }
